@@ -43,6 +43,7 @@ type Prop struct {
 	Quick           []Part
 	Thorough        []Part
 	MinNonTrivial   int    // floor for distinct_nontrivial in quick tier (machinery sanity)
+	EscapeReport    string // file whose escape-analysis lines (-gcflags=-m) are recorded in the evidence
 	RequirePrefix   string // counters with this prefix ...
 	RequireDistinct int    // ... must show at least this many distinct keys (every table row exercised)
 }
